@@ -688,8 +688,15 @@ def _arg_combine(data, axis, argfunc, keepdims=False):
     arg = data["arg"]
     if axis is None:
         local_args = argfunc(vals, axis=axis, keepdims=keepdims)
-        vals = vals.ravel()[local_args]
-        arg = arg.ravel()[local_args]
+        flat_vals, flat_arg = vals.ravel(), arg.ravel()
+        # Among equal candidates NumPy reports the first in flat order of the
+        # whole array, which need not come from the first block in grid order
+        ties = flat_vals == flat_vals[np.asarray(local_args).ravel()[0]]
+        if np.count_nonzero(ties) > 1:
+            first = np.flatnonzero(ties)[np.argmin(flat_arg[ties])]
+            local_args = np.full_like(local_args, first)
+        vals = flat_vals[local_args]
+        arg = flat_arg[local_args]
     else:
         local_args = argfunc(vals, axis=axis)
         inds = list(np.ogrid[tuple(map(slice, local_args.shape))])
